@@ -279,8 +279,12 @@ func runWorker(prop, tier string, base uint64, wi, nw, runs int, budget time.Dur
 			}
 		}
 	}()
+	inflight, _ := os.OpenFile(outPath+".inflight", os.O_CREATE|os.O_WRONLY, 0o644)
 	for i := wi; ; i += nw {
 		atomic.StoreInt64(&progress, int64(i))
+		if inflight != nil {
+			inflight.WriteAt([]byte(fmt.Sprintf("%020d", i)), 0) // which run a crash of this process belongs to
+		}
 		if budget > 0 {
 			if time.Since(start) > budget && i >= runs {
 				break
@@ -521,7 +525,8 @@ func runParent(pd *PropDef, tier string, seed uint64, n int, budget time.Duratio
 			"-budget", strconv.Itoa(int(budget / time.Second))}
 		cmd := exec.Command(self, args...)
 		cmd.Stdout = os.Stderr
-		cmd.Stderr = os.Stderr
+		errf, _ := os.Create(outs[i] + ".stderr")
+		cmd.Stderr = errf
 		racelog := filepath.Join(tmp, fmt.Sprintf("race%d", i))
 		cmd.Env = append(os.Environ(), "GORACE=halt_on_error=0 exitcode=0 log_path="+racelog, "VERIF_RACELOG="+racelog)
 		if err := cmd.Start(); err != nil {
@@ -531,11 +536,24 @@ func runParent(pd *PropDef, tier string, seed uint64, n int, budget time.Duratio
 		cmds[i] = cmd
 	}
 	trouble := ""
+	var crashes []FoundViolation
 	for i, cmd := range cmds {
-		if err := cmd.Wait(); err != nil {
+		err := cmd.Wait()
+		errText, _ := os.ReadFile(outs[i] + ".stderr")
+		if len(errText) > 0 && err == nil {
+			os.Stderr.Write(tailBytes(errText, 4000))
+		}
+		if err != nil {
 			if pd.ID == "C14" && cmd.ProcessState.ExitCode() == 66 {
 				continue // the race detector's exit status after it reported a race
 			}
+			// a process-fatal error (fatal error / unexpected signal) inside the code
+			// under test kills the worker: find the run it belongs to and replay it
+			if fv, ok := crashCase(pd, tier, seed, outs[i], errText, replayDir, self); ok {
+				crashes = append(crashes, fv)
+				continue
+			}
+			os.Stderr.Write(tailBytes(errText, 4000))
 			trouble = fmt.Sprintf("worker %d: %v", i, err)
 		}
 	}
@@ -544,7 +562,9 @@ func runParent(pd *PropDef, tier string, seed uint64, n int, budget time.Duratio
 	for i := range outs {
 		b, err := os.ReadFile(outs[i])
 		if err != nil {
-			trouble = fmt.Sprintf("worker %d wrote no output: %v", i, err)
+			if len(crashes) == 0 {
+				trouble = fmt.Sprintf("worker %d wrote no output: %v", i, err)
+			}
 			continue
 		}
 		var w WorkerOut
@@ -600,6 +620,7 @@ func runParent(pd *PropDef, tier string, seed uint64, n int, budget time.Duratio
 			}
 		}
 	}
+	agg.Violations = append(agg.Violations, crashes...)
 	wall := time.Since(start).Seconds()
 
 	// known findings
@@ -720,6 +741,70 @@ func runParent(pd *PropDef, tier string, seed uint64, n int, budget time.Duratio
 		return 2
 	}
 	return 0
+}
+
+func tailBytes(b []byte, n int) []byte {
+	if len(b) > n {
+		return b[len(b)-n:]
+	}
+	return b
+}
+
+// crashInCode: the dying worker's stack shows a frame of the code under test
+// (and the runtime did not merely detect that the simulator itself hung).
+func crashInCode(stderr string) bool {
+	if !strings.Contains(stderr, "fatal error:") && !strings.Contains(stderr, "unexpected signal") {
+		return false
+	}
+	if strings.Contains(stderr, "all goroutines are asleep") {
+		return false
+	}
+	for _, l := range strings.Split(stderr, "\n") {
+		l = strings.TrimSpace(l)
+		if strings.HasPrefix(l, "github.com/fufuok/cache") && !strings.Contains(l, "/verifsim/") {
+			return true
+		}
+	}
+	return false
+}
+
+// crashCase rebuilds the case the crashed worker was executing, writes it as a
+// replay file and confirms the crash in a fresh process.
+func crashCase(pd *PropDef, tier string, base uint64, outPath string, errText []byte, replayDir, self string) (FoundViolation, bool) {
+	if !crashInCode(string(errText)) {
+		return FoundViolation{}, false
+	}
+	b, err := os.ReadFile(outPath + ".inflight")
+	if err != nil {
+		return FoundViolation{}, false
+	}
+	idx, err := strconv.Atoi(strings.TrimLeft(strings.TrimSpace(string(b)), "0"))
+	if err != nil {
+		idx = 0
+	}
+	s := seedFor(base, pd.ID, idx)
+	c := pd.Gen(s, tier)
+	c.Property, c.Seed, c.RunIndex, c.Tier = pd.ID, s, idx, tier
+	c.Rule = "crash"
+	c.Explanation = "the process died with a fatal runtime error inside the code under test:\n" + string(tailBytes(errText, 3000))
+	os.MkdirAll(replayDir, 0o755)
+	path := filepath.Join(replayDir, fmt.Sprintf("%s-%d-%d-crash.json", pd.ID, s, idx))
+	jb, _ := json.MarshalIndent(c, "", " ")
+	os.WriteFile(path, jb, 0o644)
+	out, _ := exec.Command(self, "-replay", path).CombinedOutput()
+	if !crashInCode(string(out)) {
+		return FoundViolation{}, false // not reproducible: leave it as trouble
+	}
+	return FoundViolation{Rule: "crash", Detail: firstLine(fatalLine(string(out))), Replay: path, Signature: pd.ID + "/crash", Seed: s, RunIndex: idx, NonReplayable: true}, true
+}
+
+func fatalLine(s string) string {
+	for _, l := range strings.Split(s, "\n") {
+		if strings.Contains(l, "fatal error:") || strings.Contains(l, "unexpected signal") {
+			return "fatal runtime error inside the code under test: " + strings.TrimSpace(l)
+		}
+	}
+	return "fatal runtime error inside the code under test"
 }
 
 func firstLine(s string) string {
